@@ -1383,6 +1383,12 @@ theorem operand_bounds_fit_fields :
     (-(2 ^ 15 : Int) ≤ labelJumpMin ∧ labelJumpMax < 2 ^ 15) ∧ ifCondJumpMax < 2 ^ 15 ∧ whileCondJumpMax < 2 ^ 15 ∧
     ifJumpMax < 2 ^ 23 ∧ whileJumpMax < 2 ^ 23 := by decide
 
+/-- the longest jump `janetc_while` writes is that of a `break` at the top of the loop, `labeld − labelwt` (one more than the jump
+back `labeljt − labelwt`): the bound regenerated from the range check of the current source — the literal, plus one when the check is
+on the jump back — fits the VM's signed 24-bit field.  (False on the tree that checked `labeljt − labelwt > 0x7FFFFF`: bound 0x800000,
+`compile_correct_while_break`'s hypothesis `hrg`; corpus scenario `bound-while-true-break-8388606`.) -/
+theorem while_break_jump_fits : whileBreakJumpMax < 2 ^ 23 ∧ whileJumpMax ≤ whileBreakJumpMax := by decide
+
 /-- non-vacuity: index 255 is carried by the short form and read back as 255; 127 / -128 and 32767 / -32768 likewise -/
 example : fC (0x1D + 3 * 256 + 4 * 65536 + (255 % 2 ^ destructureShortIndexBits) * 16777216) = 255 :=
   (destructure_short_index_fits 0x1D 3 4 255 (by decide) (by decide) (by decide) (by decide)).2.2
